@@ -466,10 +466,10 @@ func (w *c09World) names() map[string]string {
 }
 
 type c09Result struct {
-	Tree   *c09Node
-	Absent bool   // the transport's "no tree" answer (engine nil / REST 404 / gRPC empty response)
-	Err    string // any other failure
-	Stmts  int
+	Tree    *c09Node
+	Absent  bool   // the transport's "no tree" answer (engine nil / REST 404 / gRPC empty response)
+	Err     string // any other failure
+	Stmts   int
 	Horizon bool
 }
 
@@ -750,15 +750,15 @@ type c09Cand struct {
 }
 
 type c09Run struct {
-	mu        sync.Mutex
-	cands     []c09Cand
-	expands   atomic.Int64
-	checks    atomic.Int64
-	states    atomic.Int64 // (multiset, order) pairs
-	nontriv   atomic.Int64 // ... with a subject at distance >= 2
-	maxOver   atomic.Int64 // max(levels - eff) seen (engine convention: <= 0)
-	maxStmts  atomic.Int64
-	shape     map[string]int
+	mu       sync.Mutex
+	cands    []c09Cand
+	expands  atomic.Int64
+	checks   atomic.Int64
+	states   atomic.Int64 // (multiset, order) pairs
+	nontriv  atomic.Int64 // ... with a subject at distance >= 2
+	maxOver  atomic.Int64 // max(levels - eff) seen (engine convention: <= 0)
+	maxStmts atomic.Int64
+	shape    map[string]int
 }
 
 func (r *c09Run) note(k string) {
@@ -769,7 +769,7 @@ func (r *c09Run) note(k string) {
 
 // runState explores one stored state (tuples in listing order) over all depth
 // combinations and transports.
-func (r *c09Run) runState(w *c09World, family string, ts []*ketoapi.RelationTuple, root *ketoapi.SubjectSet, depths []c09Depth, transports []string, checkIDs []string) {
+func (r *c09Run) runState(w *c09World, family string, ts []*ketoapi.RelationTuple, root *ketoapi.SubjectSet, depths []c09Depth, transports []string, checkIDs []string, reduced bool) {
 	m := c09NewModel(ts, root)
 	names := w.names()
 	r.states.Add(1)
@@ -780,22 +780,20 @@ func (r *c09Run) runState(w *c09World, family string, ts []*ketoapi.RelationTupl
 	if far {
 		r.nontriv.Add(1)
 	}
+	checked := map[string]apih.Resp{}
 	for _, d := range depths {
 		eff := d.eff()
-		var leafIDs map[refsem.SubjectKey]bool
 		for _, tr := range transports {
+			if reduced && tr != "engine" && !c09ReducedDepth(d) {
+				continue
+			}
 			res := w.expand(tr, root, d, names, 4*(m.bound+m.tuples+1)+32)
 			r.expands.Add(1)
 			fs, st := c09Judge(m, res, eff, tr)
-			if over := int64(st.levels - eff); res.Tree != nil && over > r.maxOver.Load() {
-				r.maxOver.Store(over)
+			if res.Tree != nil {
+				c09Max(&r.maxOver, int64(st.levels-eff))
 			}
-			if int64(res.Stmts) > r.maxStmts.Load() {
-				r.maxStmts.Store(int64(res.Stmts))
-			}
-			if tr == "engine" {
-				leafIDs = st.leafIDs
-			}
+			c09Max(&r.maxStmts, int64(res.Stmts))
 			for _, f := range fs {
 				r.mu.Lock()
 				r.cands = append(r.cands, c09Cand{Case: c09Case{family, ts, root, d, tr, nil}, F: f, Tree: res.Tree.String()})
@@ -804,8 +802,12 @@ func (r *c09Run) runState(w *c09World, family string, ts []*ketoapi.RelationTupl
 			// depth not binding: subject-id leaves == subjects Check allows
 			if d.Global == c09Unbound && res.Tree != nil && len(fs) == 0 {
 				for _, u := range checkIDs {
-					resp := w.byDepth[c09Unbound].Client().CheckGET(&ketoapi.RelationTuple{Namespace: root.Namespace, Object: root.Object, Relation: root.Relation, SubjectID: axS(u)}, true, "")
-					r.checks.Add(1)
+					if _, ok := checked[u]; !ok { // the store does not change: one Check per subject and state
+						checked[u] = w.byDepth[c09Unbound].Client().CheckGET(&ketoapi.RelationTuple{Namespace: root.Namespace, Object: root.Object, Relation: root.Relation, SubjectID: axS(u)}, true, "")
+						r.checks.Add(1)
+						w.s.Settle()
+					}
+					resp := checked[u]
 					allowed, ok := resp.Allowed()
 					isLeaf := st.leafIDs[refsem.SubjectIDKey(u)]
 					var f *c09Finding
@@ -823,10 +825,28 @@ func (r *c09Run) runState(w *c09World, family string, ts []*ketoapi.RelationTupl
 						r.mu.Unlock()
 					}
 				}
-				w.s.Settle()
 			}
 		}
-		_ = leafIDs
+	}
+}
+
+// c09ReducedDepth: the depth combinations REST and gRPC run on when a state
+// is explored in reduced mode (thorough tier, 5-tuple states); the engine
+// path always runs on all of them.
+func c09ReducedDepth(d c09Depth) bool {
+	switch d {
+	case c09Depth{3, 5}, c09Depth{5, 5}, c09Depth{0, 3}, c09Depth{0, c09Unbound}:
+		return true
+	}
+	return false
+}
+
+func c09Max(a *atomic.Int64, v int64) {
+	for {
+		old := a.Load()
+		if v <= old || a.CompareAndSwap(old, v) {
+			return
+		}
 	}
 }
 
@@ -995,7 +1015,7 @@ func TestC09(t *testing.T) {
 		w.load(c.Tuples)
 		w.order(c.Tuples)
 		sub := &c09Run{shape: map[string]int{}}
-		sub.runState(w, c.Family, c.Tuples, c.Root, []c09Depth{c.Depth}, []string{c.Transport}, c.Checks)
+		sub.runState(w, c.Family, c.Tuples, c.Root, []c09Depth{c.Depth}, []string{c.Transport}, c.Checks, false)
 		var fs []c09Finding
 		for _, cd := range sub.cands {
 			fs = append(fs, cd.F)
@@ -1039,10 +1059,27 @@ func TestC09(t *testing.T) {
 	{
 		w := world(0)
 		w.load(nil)
-		r.runState(w, "empty", nil, c09Root, depths, c09Transports, nil)
+		r.runState(w, "empty", nil, c09Root, depths, c09Transports, nil, false)
 	}
 
+	fans := c09FanCases()
+	fanDepths := []c09Depth{{1, 5}, {2, 5}, {3, 5}, {0, 5}, {0, c09Unbound}}
+	var doneFans atomic.Int64
 	t0 := time.Now()
+	axParallel(len(fans), world, func(w *c09World, i int) {
+		if time.Now().After(deadline) {
+			timedOut.Store(true)
+			return
+		}
+		f := fans[i]
+		w.load(f.Tuples)
+		w.order(f.Tuples)
+		r.runState(w, "fanout:"+f.Name, f.Tuples, c09Root, fanDepths, c09Transports, f.Checks, false)
+		doneFans.Add(1)
+	})
+	fmt.Printf("[c09] fan-out family: %d cases in %.1fs\n", doneFans.Load(), time.Since(t0).Seconds())
+
+	t0 = time.Now()
 	axParallel(len(all), world, func(w *c09World, i int) {
 		if time.Now().After(deadline) {
 			timedOut.Store(true)
@@ -1056,28 +1093,11 @@ func TestC09(t *testing.T) {
 		for _, seq := range c09Orders(ms) {
 			ts := c09TuplesOf(seq)
 			w.order(ts)
-			r.runState(w, "small", ts, c09Root, depths, c09Transports, checkIDs)
+			r.runState(w, "small", ts, c09Root, depths, c09Transports, checkIDs, len(ms) >= 5)
 		}
 		doneSets.Add(1)
 	})
 	fmt.Printf("[c09] small family: %d multisets, %d stored states, %d expands in %.1fs\n", doneSets.Load(), r.states.Load(), r.expands.Load(), time.Since(t0).Seconds())
-
-	fans := c09FanCases()
-	fanDepths := []c09Depth{{1, 5}, {2, 5}, {3, 5}, {0, 5}, {0, c09Unbound}}
-	var doneFans atomic.Int64
-	t0 = time.Now()
-	axParallel(len(fans), world, func(w *c09World, i int) {
-		if time.Now().After(deadline) {
-			timedOut.Store(true)
-			return
-		}
-		f := fans[i]
-		w.load(f.Tuples)
-		w.order(f.Tuples)
-		r.runState(w, "fanout:"+f.Name, f.Tuples, c09Root, fanDepths, c09Transports, f.Checks)
-		doneFans.Add(1)
-	})
-	fmt.Printf("[c09] fan-out family: %d cases in %.1fs\n", doneFans.Load(), time.Since(t0).Seconds())
 
 	// report the smallest confirmed counterexample per signature
 	sort.SliceStable(r.cands, func(i, j int) bool { return c09CaseSize(r.cands[i].Case) < c09CaseSize(r.cands[j].Case) })
@@ -1138,26 +1158,27 @@ func TestC09(t *testing.T) {
 	shape := r.shape
 	r.mu.Unlock()
 	run.Finish(map[string]any{
-		"evaluations":                 int(r.expands.Load()),
-		"distinct_nontrivial":         int(r.nontriv.Load()),
-		"rule":                        "evaluations = expand calls (stored state x depth combination x path); a stored state = (tuple multiset up to renaming, sibling row order) and is non-trivial iff some subject is at distance >= 2 from the requested set (a nested set must be expanded); distinct_nontrivial counts distinct non-trivial stored states",
-		"exhaustive":                  !timedOut.Load() && unstable == 0,
-		"max_tuples":                  maxTuples,
-		"multisets_per_size":          perSize,
-		"multisets_done":              int(doneSets.Load()),
-		"multisets_total":             len(all),
-		"stored_states":               int(r.states.Load()),
-		"fanout_cases":                int(doneFans.Load()),
-		"fanout_sizes":                []int{99, 100, 101, 201},
-		"depth_combinations":          depths,
-		"paths":                       c09Transports,
-		"check_comparisons":           int(r.checks.Load()),
-		"shape_counts":                shape,
-		"max_levels_minus_eff_depth":  int(r.maxOver.Load()),
-		"max_statements_per_expand":   int(r.maxStmts.Load()),
-		"candidates":                  len(r.cands),
-		"candidate_signatures":        sigCount,
-		"unstable_candidates":         unstable,
-		"symmetry":                    "objects o2..o4 and users u1/u2 renamed (12 images), canonical representative = least sorted index list",
+		"evaluations":                int(r.expands.Load()),
+		"distinct_nontrivial":        int(r.nontriv.Load()),
+		"rule":                       "evaluations = expand calls (stored state x depth combination x path); a stored state = (tuple multiset up to renaming, sibling row order) and is non-trivial iff some subject is at distance >= 2 from the requested set (a nested set must be expanded); distinct_nontrivial counts distinct non-trivial stored states",
+		"exhaustive":                 !timedOut.Load() && unstable == 0,
+		"max_tuples":                 maxTuples,
+		"multisets_per_size":         perSize,
+		"multisets_done":             int(doneSets.Load()),
+		"multisets_total":            len(all),
+		"stored_states":              int(r.states.Load()),
+		"fanout_cases":               int(doneFans.Load()),
+		"fanout_sizes":               []int{99, 100, 101, 201},
+		"depth_combinations":         depths,
+		"paths":                      c09Transports,
+		"reduced_mode":               "5-tuple states (thorough): REST and gRPC on the depth combinations 3/5, 5/5, 0/3, 0/50 only; the engine path on all",
+		"check_comparisons":          int(r.checks.Load()),
+		"shape_counts":               shape,
+		"max_levels_minus_eff_depth": int(r.maxOver.Load()),
+		"max_statements_per_expand":  int(r.maxStmts.Load()),
+		"candidates":                 len(r.cands),
+		"candidate_signatures":       sigCount,
+		"unstable_candidates":        unstable,
+		"symmetry":                   "objects o2..o4 and users u1/u2 renamed (12 images), canonical representative = least sorted index list",
 	})
 }
